@@ -659,7 +659,8 @@ Proof.
     rewrite orb_true_r in E. discriminate.
   - unfold tr. clear tr.
     destruct ch, mt; cbv [active_commit_calls commit_calls filter guard_on unsafe_io do_chown do_mtime negb fst snd length] in L;
-      repeat (destruct k as [|k]; [|]); try (exfalso; lia);
+      (assert (K : (k = 0 \/ k = 1 \/ k = 2 \/ k = 3 \/ k = 4 \/ k = 5 \/ k = 6)%nat) by lia);
+      destruct K as [-> | [-> | [-> | [-> | [-> | [-> | ->]]]]]]; try (exfalso; lia);
       cbv [commit_ops_f active_commit_calls commit_calls filter firstn flat_map guard_on unsafe_io do_chown do_mtime negb fst snd
            commit_call_ops app length Nat.ltb Nat.leb existsb call_is_rename orb];
       cbn [safe_from op_safe versions step andb]; rewrite ?Hi; unfold upd_inode; cbn [vdir inodes andb pend ddir next];
